@@ -29,13 +29,21 @@ KeyOrders(n) == {[i \in 1..n |-> i], [i \in 1..n |-> n + 1 - i]}
 TraceLog == IF Family = "trace" THEN JsonDeserialize(IOEnv.TRACE_FILE) ELSE <<>>
 ScOfTrace(t) == [n |-> t.n, m |-> t.m, keys |-> t.keys, sigs |-> t.sigs, tid |-> t.tid]
 
+\* A model-checking scenario starts with (n, m, key order) and no signatures; the m signatures are chosen one at a
+\* time by the action Pick (res = "setup"), so that the enumeration of all signature sequences is part of the
+\* (parallel) state-space search and not of the (sequential) computation of initial states.
 Scenarios(z) ==
     IF Family = "trace" THEN { ScOfTrace([TraceLog[i] EXCEPT !.tid = i]) : i \in 1..Len(TraceLog) }
-    ELSE UNION { { [n |-> n, m |-> m, keys |-> ko, sigs |-> ss, tid |-> 0] : ko \in KeyOrders(n), ss \in Seqs(Sigs(n), m) }
-                 : n \in 0..MaxN, m \in 0..MaxN } \ { s \in {} : TRUE }
+    ELSE UNION { { [n |-> n, m |-> m, keys |-> ko, sigs |-> <<>>, tid |-> 0] : ko \in KeyOrders(n) }
+                 : n \in 0..MaxN, m \in 0..MaxN }
 
 Init == /\ sc \in { s \in Scenarios(0) : s.m <= s.n \/ Family = "trace" }
-        /\ si = 1 /\ ki = 1 /\ rem = sc.keys /\ conf = {} /\ res = "run"
+        /\ si = 1 /\ ki = 1 /\ rem = sc.keys /\ conf = {}
+        /\ res = (IF Family = "trace" \/ sc.m = 0 THEN "run" ELSE "setup")
+Pick == /\ res = "setup"
+        /\ \E s \in Sigs(sc.n) : /\ sc' = [sc EXCEPT !.sigs = Append(@, s)]
+                                  /\ res' = (IF Len(sc.sigs) + 1 = sc.m THEN "run" ELSE "setup")
+        /\ UNCHANGED <<si, ki, rem, conf>>
 
 Valid(sig, key) == sig.cls \in {"f0", "perm"} /\ sig.signer = key
 Raises(sig) == sig.cls \in {"nonperm", "bad"}
@@ -53,7 +61,7 @@ Compare == /\ res = "run" /\ si <= sc.m /\ ki <= Len(rem)
                    THEN /\ rem' = RemoveAt(rem, ki) /\ conf' = conf \cup {sig} /\ si' = si + 1 /\ ki' = 1
                         /\ UNCHANGED <<sc, res>>
                    ELSE ki' = ki + 1 /\ UNCHANGED <<sc, si, rem, conf, res>>
-Next == Finish \/ NextSig \/ Compare
+Next == Pick \/ Finish \/ NextSig \/ Compare
 Spec == Init /\ [][Next]_vars
 
 \* ---- the declarative quorum ---------------------------------------------------------------
@@ -63,16 +71,21 @@ Quorum(s) == /\ \A i \in 1..s.m : s.sigs[i].cls \in {"f0", "perm"} /\ s.sigs[i].
 DistinctSigners(s) == Cardinality({s.sigs[i].signer : i \in {j \in 1..s.m : s.sigs[j].cls \in {"f0", "perm"} /\ s.sigs[j].signer \in Listed(s)}})
 
 \* ---- invariants -------------------------------------------------------------------------------
-Done == res # "run"
+Done == res \notin {"run", "setup"}
 TrueIffQuorum == Done => ((res = "true") <=> Quorum(sc))
 \* fewer than m distinct listed signers never pass
 FewerNeverPass == (Done /\ DistinctSigners(sc) < sc.m) => res # "true"
 \* a matched key is never used twice; confirmations never exceed signatures examined
 KeysUsedOnce == Len(rem) + Cardinality(conf) <= Len(sc.keys) /\ Cardinality(conf) < si
-TypeOK == res \in {"run", "true", "false", "error"} /\ si \in 1..(sc.m + 1) /\ ki \in 1..(Len(rem) + 1)
+TypeOK == res \in {"setup", "run", "true", "false", "error"} /\ si \in 1..(sc.m + 1) /\ ki \in 1..(Len(rem) + 1)
 
 Out == [n |-> sc.n, m |-> sc.m, keys |-> sc.keys, sigs |-> sc.sigs, expect |-> res]
-EmitCase == Family = "trace" \/ ~Done \/ ~Emit \/ PrintT(ToJson(Out))
+\* with MaxN >= 5 only a deterministic sample of the scenarios is printed for replay (all of them are model-checked)
+ClsIx(cl) == CASE cl = "f0" -> 1 [] cl = "perm" -> 2 [] cl = "nonperm" -> 3 [] OTHER -> 4
+RECURSIVE SigSum(_, _)
+SigSum(ss, i) == IF i > Len(ss) THEN 0 ELSE i * (ss[i].signer + 7 * ClsIx(ss[i].cls)) + SigSum(ss, i + 1)
+Sampled(s) == MaxN <= 4 \/ s.m <= 3 \/ (SigSum(s.sigs, 1) + s.keys[1]) % 61 = 0
+EmitCase == Family = "trace" \/ ~Done \/ ~Emit \/ ~Sampled(sc) \/ PrintT(ToJson(Out))
 \* trace scenarios carry the implementation's outcome `got`
 TraceCheck == Family # "trace" \/ ~Done \/
               PrintT(ToJson([i |-> sc.tid, v |-> IF TraceLog[sc.tid].got = res THEN "ok" ELSE "verdict:" \o res]))
